@@ -36,16 +36,24 @@ def _strip(o):
 # Layer 1
 
 
-def job_backprop(family, shape, timeout_q=20.0, max_paths=4000):
+def job_backprop(family, shape, timeout_q=20.0, max_paths=4000, null_rows=None):
+    """null_rows: features whose rows of W1_ / W_skip_ are exactly zero (eliminated by the proximal step): the entries stay
+    symbolic variables -- so that the derivative w.r.t. them is defined -- under the hypothesis that they are 0."""
     loader.install()
     res = {"paths": 0, "queries": 0, "obligations": [], "violations": [], "validated": 0, "witnesses": 0, "samples": []}
     st = {}
 
     def setup():
         core.CTX.strict = True   # ReLU kinks / cut-point ties are outside the differentiability region
+        core.CTX.eq_decisions = bool(null_rows)   # ... but `row norm == 0` is the subject of the null-row jobs
         mdl, X, params, extra = cm.build_symbolic(family, shape)
         n, Kc = extra["n"], extra["K"]
         G = harness.free_matrix(n, Kc, "g")
+        for j in (null_rows or []):
+            for nm in ("W1_", "W_skip_", "W_"):
+                if hasattr(mdl, nm):
+                    for w in getattr(mdl, nm)[j]:
+                        harness.assume(w == 0)
         st.update(mdl=mdl, params=params, extra=extra)
         return mdl, X, G
 
@@ -57,7 +65,7 @@ def job_backprop(family, shape, timeout_q=20.0, max_paths=4000):
         return P0, grads, G, X
 
     ex = Explorer(max_paths=max_paths)
-    tagbase = f"backprop/{family}/{cm.shape_str(shape)}"
+    tagbase = f"backprop/{family}/{cm.shape_str(shape)}" + (f"/null{null_rows}" if null_rows else "")
     for out, pc, trace in ex.run(body, setup):
         res["paths"] += 1
         tag = f"{tagbase}/path{res['paths']}"
@@ -100,7 +108,7 @@ def job_backprop(family, shape, timeout_q=20.0, max_paths=4000):
                     res["queries"] += 1
                 res["obligations"].append(_strip(o))
                 if o["verdict"] == "sat":
-                    rep = {"kind": "backprop", "family": family, "shape": list(shape), "param": pname,
+                    rep = {"kind": "backprop", "family": family, "shape": list(shape), "param": pname, "null_rows": null_rows,
                            "model": {k: str(x) for k, x in (o.get("model") or {}).items() if "!" not in k}}
                     if o.get("model") and replay(rep):
                         if pname not in bad_params:
@@ -173,6 +181,10 @@ def job_loop(family, shape, gemini, batch_size, solver="adam", mlcl=False, timeo
         okc = len(env.steps) == exp_steps
         res["obligations"].append({"name": tag + f"/optimiser steps == ceil(n/batch_size) = {exp_steps}", "verdict": "unsat" if okc else "sat", "how": "syntactic",
                                    "steps": len(env.steps)})
+        if mlcl:
+            # vacuity guard: some optimiser step must see a constrained pair inside its batch
+            act = sum(1 for step in env.steps for (a, b) in env.ml + env.cl if step["rows"] and a in step["rows"] and b in step["rows"])
+            res["obligations"].append({"name": tag + "/a constrained pair is active in some batch", "verdict": "unsat" if act else "unknown", "how": "syntactic", "active": act})
         bad = set()
         for si, step in enumerate(env.steps):
             S = env.reference_objective(step)
@@ -233,6 +245,10 @@ def jobs(tier):
         for sh in shapes:
             out.append({"name": f"backprop/{fam}/{cm.shape_str(sh)}", "target": "checks.c03:job_backprop",
                         "kwargs": dict(family=fam, shape=sh, timeout_q=20.0 if q else 120.0), "timeout": 300 if q else 2400})
+    # parameters as the proximal step leaves them: a feature with exactly-null rows still receives the true gradient
+    for fam, sh in [("SparseMLPModel", (2, 2, 1, 2)), ("SparseLinearModel", (2, 2, 2))] + ([] if q else [("SparseMLPModel", (2, 3, 2, 2))]):
+        out.append({"name": f"backprop/{fam}/{cm.shape_str(sh)}/null-row", "target": "checks.c03:job_backprop",
+                    "kwargs": dict(family=fam, shape=sh, timeout_q=20.0 if q else 120.0, null_rows=[1]), "timeout": 300 if q else 2400})
     L2 = [
         ("LinearModel", (2, 1, 2), "mi", None), ("LinearModel", (2, 1, 2), "mi", 1), ("LinearModel", (3, 1, 2), "mmd_ova", 2),
         ("RIM", (2, 1, 2), "mi", None), ("RIM", (3, 1, 2), "mi", 2),
@@ -272,9 +288,12 @@ def jobs(tier):
                 "kwargs": dict(family="LinearModel", shape=(3, 1, 2), gemini="mi", batch_size=None, mlcl={"ml": [(0, 1), (0, 2)], "cl": []}), "timeout": 300 if q else 2400})
     out.append({"name": "loop/CategoricalModel/mlcl/shared-sample", "target": "checks.c03:job_loop",
                 "kwargs": dict(family="CategoricalModel", shape=(3, 2), gemini="mi", batch_size=None, mlcl={"ml": [], "cl": [(2, 1), (0, 1)]}), "timeout": 300 if q else 2400})
-    if not q:
-        out.append({"name": "loop/LinearModel/mlcl/bs2", "target": "checks.c03:job_loop",
-                    "kwargs": dict(family="LinearModel", shape=(3, 1, 2), gemini="mi", batch_size=2, mlcl=True), "timeout": 2400})
+    # decoration + mini-batches: the pairs must be looked up among the rows of the batch being processed (the stubbed permutation
+    # is the reversal, so the batches are [2,1],[0] and [3,2],[1,0]: each constrained pair below sits inside one batch)
+    out.append({"name": "loop/LinearModel/mlcl/bs2", "target": "checks.c03:job_loop",
+                "kwargs": dict(family="LinearModel", shape=(3, 1, 2), gemini="mi", batch_size=2, mlcl={"ml": [(2, 1)], "cl": [(0, 2)]}), "timeout": 300 if q else 2400})
+    out.append({"name": "loop/LinearModel/mlcl/bs2/n4", "target": "checks.c03:job_loop",
+                "kwargs": dict(family="LinearModel", shape=(4, 1, 2), gemini="mi", batch_size=2, mlcl={"ml": [(3, 2)], "cl": [(1, 0)]}), "timeout": 300 if q else 2400})
     return out
 
 
